@@ -8,11 +8,11 @@ import numpy as np
 
 from .. import alph
 from .. import oracles as O
-from ..core import CaseResult
+from ..core import CaseResult, twice
 
 PROP = "C13"
 LEVEL = "exploration"
-RULE = ("cells (12 quick / 60 thorough from the cell alphabet, all cosine sign patterns) x strain tensors {-0.1,0,0.1}^6 (729) + 21 tiny strains of magnitude 1e-7..3e-6 (+ {-0.05,0.03}^6 "
+RULE = ("cells (12 quick / 60 thorough from the cell alphabet, all cosine sign patterns) x strain tensors {-0.1,0,0.1}^6 (729) + 63 strains on a logarithmic ladder of magnitudes 1e-7..1e-2 (+ {-0.05,0.03}^6 "
         "in thorough) x rotations from the integer-quaternion lattice x both modules, new and _old function pairs; each strain walks the "
         "conversion graph eps -> B -> eps -> (with U) UBI -> (U, eps) and every state is compared with the harness' own construction "
         "B = inv(T).B0, T upper triangular with sym(T) = eps + I. distinct_nontrivial = distinct (module, cell, eps) with eps != 0.")
@@ -32,7 +32,7 @@ def cell_list(tier):
 def eps_list(tier):
     e = [list(x) for x in itertools.product((0.0, 0.1, -0.1), repeat=6)]
     # tiny strains (a tolerance that treats "almost unstrained" as unstrained lives here)
-    for mag in (3e-6, -1e-6, 1e-7):
+    for mag in (3e-6, -1e-6, 1e-7, 1e-5, -1e-4, 5e-4, -8e-4, 1e-3, 1e-2):  # a logarithmic ladder between "tiny" and 0.1
         for k in range(6):
             v = [0.0] * 6
             v[k] = mag
@@ -83,7 +83,7 @@ def check_case(case):
         T = tmat(eps)
         Bref = np.linalg.inv(T) @ B0
         # eps -> B
-        B = np.asarray(mod.epsilon_to_b(eps, cell), float)
+        B = np.asarray(twice(r, key + ":epsilon_to_b", mod.epsilon_to_b, eps, cell), float)
         r.check("eps->B", float(np.max(np.abs(B - Bref))) / bn, tol, key + ":e2b", "epsilon_to_b = inv(T).B0 with sym(T) = eps + I", Bref, B)
         # B -> eps, from the reference B and from the state reached (non-initial)
         for nm, Bin in (("ref", Bref), ("chain", B)):
